@@ -32,6 +32,7 @@ SUBJ = {
  "F37": "`in` with a regular expression that hits the backtracking limit",
  "F38": "a custom message of only blanks or separators",
  "F39": "the source excerpt of the console reporter depended on the order",
+ "F47": "parse_int() silently saturated floats",
  "F31": "`test` listed the rules of a test case in a different order",
 }
 log = subprocess.run(["git", "-C", "/repo", "log", "--format=%h %s"], capture_output=True, text=True).stdout.splitlines()
